@@ -209,6 +209,39 @@ def rxBad (l : L) (s mid : Nat) : L :=
     l.emit (.nack l.now s .bad n.mid true)
   | none => l
 
+/-- an ACK whose code is a REQUEST method (0.01 … 0.31, e.g. the bytes `60 01 <mid>`) arrives — the ACK branch of
+`coap_dispatch`: `coap_remove_from_queue(&context->sendqueue, session, pdu->mid, &sent)` FIRST (the ACK carries the
+message id: the retransmission stops whatever else it carries), `if (sent && con_active) { con_active--;
+coap_session_connected }`, no critical option, `pdu->code != 0`, then `else if (COAP_PDU_IS_REQUEST(pdu))`: "This is not
+legitimate - Request using ACK", `packet_is_bad = 1; goto cleanup`, where `coap_handle_nack(BAD_RESPONSE)` is called
+iff a node was found.  (Written out separately from `rxBad` — the check at the top of `coap_dispatch` — because it is a
+different place in the code; `Coap.C06.ack_request_code_is_bad_ack` shows the two are the same function, so every
+theorem with `Ev.rxBad` in its alphabet covers it and the driver replays such an ACK as `Ev.rxBad`.) -/
+def rxAckReq (l : L) (s mid : Nat) : L :=
+  let (sent, rest) := removeNode l.q.nodes s mid
+  let l := { l with q := { l.q with nodes := rest } }
+  let l := match sent with
+    | some _ => release l s
+    | none => l
+  match sent with
+  | some n => l.emit (.nack l.now s .bad n.mid true)
+  | none => l
+
+/-- a message `coap_check_notify_lkd` hands to `coap_send_internal` (an Observe notification of a server context) -/
+structure Notif where
+  s : Nat
+  con : Bool
+  mid : Nat
+  r : Nat
+  deriving Repr, DecidableEq
+
+/-- `coap_io_prepare_io_lkd` on a context with observable resources: `coap_check_notify_lkd(ctx)` comes FIRST — every
+notification that is due goes through `coap_send_internal` (= `submit`; a Confirmable one is queued by `coap_wait_ack`
+for `now + T`) — THEN the due loop, THEN the wait is computed from the head of the send queue.  So a Confirmable
+transmitted from inside this call is already in the queue when the wait is computed. -/
+def notifyAll (l : L) (ns : List Notif) : L := ns.foldl (fun l n => submit l n.s n.con n.mid n.r) l
+def prepareNotify (l : L) (ns : List Notif) : L := prepare (notifyAll l ns)
+
 /-- NACK every CON node of a list, in order -/
 def nackAll (l : L) (s : Nat) (r : Reason) : List Node → L
   | [] => l
